@@ -1,3 +1,55 @@
-import TddaVerif.Py.Text
+/-
+C03 — every example string is matched by one of the regular expressions rexpy returns.
+Property theorems only; proofs in TddaVerif/Lemmas/Rexpy*.lean.
+-/
+import TddaVerif.Model.Rexpy
+import TddaVerif.Props.C03Spec
+import TddaVerif.Lemmas.RexpySound
+
 namespace TddaVerif.Props.C03
+open TddaVerif.Py TddaVerif.Rexpy
+
+/-- the backtracking matcher is sound: what it captures is a split of the string into accepted pieces -/
+theorem matchCap_sound (T : CharTable) (E : List Char) (p : Pattern) (s : Line) (caps : List Line)
+    (h : matchCap T E p s = some caps) :
+    caps.flatten = s ∧ caps.length = p.length ∧
+    (∀ i, i < p.length → fragAccepts T E (p.getD i ⟨.code ' ', 0, none, false⟩) (caps.getD i []) = true) ∧
+    Matches T E p s :=
+  Lemmas.matchCap_sound T E p s caps h
+
+/-- … and complete: whenever some split exists it finds one (this is the `assert m is not None`) -/
+theorem matchCap_complete (T : CharTable) (E : List Char) (p : Pattern) (s : Line)
+    (h : Matches T E p s) : (matchCap T E p s).isSome = true :=
+  Lemmas.matchCap_complete T E p s h
+
+/-- every character is accepted by the coarse class it is given -/
+theorem coarse_sound (T : CharTable) (hT : Consistent T) (E : List Char) (hE : E = normExtras E) (c : Char) :
+    inCat T E (coarse T E c) c = true :=
+  Lemmas.coarse_sound T hT E hE c
+
+/-- **Batch extraction is sound**: no internal assertion fails, and every cleaned example is matched
+    by one of the patterns (with the optional-whitespace wrap once any example needed stripping), for every option combination (strip, empties, variable-length fragments,
+    extra letters). -/
+theorem batch_extract_sound (T : CharTable) (hT : Consistent T) (o : Opts) (cl : Cleaned) :
+    ∃ ps E, batchExtract T o cl = some (ps, E) ∧
+      ∀ s ∈ cl.strings, ∃ p ∈ ps, Matches T E (wrapWs (decide (cl.nStripped > 0)) p) s :=
+  Lemmas.batch_extract_sound T hT o cl
+
+/-- **Extraction is sound**: with no pruning option, every supplied example that an explicit option
+    does not discard — as supplied, before stripping — is matched by one of the returned patterns
+    (with the optional-whitespace wrap when stripping changed something). -/
+theorem extract_sound (T : CharTable) (hT : Consistent T) (o : Opts)
+    (hprune : o.maxPatterns = none ∧ o.minStrings ≤ 1) (items : List (Option Line × Nat)) :
+    ∃ ps E w, extract T o items = some (ps, E, w) ∧
+      ∀ s ∈ keptExamples o items, ∃ p ∈ ps, Matches T E (wrapWs w p) s :=
+  Lemmas.extract_sound T hT o hprune items
+
+/- non-vacuity -/
+example : Consistent { w := fun c => asciiUpper c || asciiLower c || asciiDigit c || c == '_',
+                       d := asciiDigit, s := isSpace } := by
+  refine ⟨?_, ?_, ?_⟩
+  · intro c h; rcases h with h | h | h | h <;> simp_all
+  · intro c h; exact h
+  · intro c h; exact h
+
 end TddaVerif.Props.C03
